@@ -140,9 +140,21 @@ func (ri *RouterIdentity) AsDestination() destination.Destination {
 	if ri == nil || ri.KeysAndCert == nil {
 		return destination.Destination{}
 	}
-	copy := *ri.KeysAndCert
+	// Deep copy through the wire form: the struct copy alone would still share the
+	// padding, the key bytes and the key certificate with the RouterIdentity.
+	if wire, err := ri.KeysAndCert.Bytes(); err == nil {
+		if kac, _, err := keys_and_cert.ReadKeysAndCert(wire); err == nil {
+			return destination.Destination{KeysAndCert: kac}
+		}
+	}
+	// Identities the parser cannot read back keep the previous behaviour,
+	// with at least the padding detached.
+	shallow := *ri.KeysAndCert
+	if shallow.Padding != nil {
+		shallow.Padding = append([]byte(nil), shallow.Padding...)
+	}
 	return destination.Destination{
-		KeysAndCert: &copy,
+		KeysAndCert: &shallow,
 	}
 }
 
